@@ -66,10 +66,10 @@ theorem KInv.sameTables {cenv : CEnv} {B : Nat} {sm sm' : SymMap} (h : KInv cenv
   exact h.older.transport fun i _ => hrec i
 
 /-- a `defvar` in the body: the new variable shadows what was in scope under its name -/
-theorem PInv.addVar {cenv : CEnv} {N : Std.HashMap String Nat} {rid : Nat} {ps : Params} {bv gv : Env} {outer : List Scope}
-    {env : Env} {c c' : IndexCtx} (h : PInv cenv N rid ps bv gv outer env c) (v : Variable) (hp : isCoreTy v.typ = true)
+theorem PInv.addVar {cenv : CEnv} {N : Std.HashMap String Nat} {rid : Nat} {ps : Params} {bv gv : Env} {outer : List Scope} {xt : XTab}
+    {env : Env} {c c' : IndexCtx} (h : PInv cenv N rid ps bv gv outer xt env c) (v : Variable) (hp : isCoreTy v.typ = true)
     (hrun : (scopesAddVariable v).run c = .ok ((), c')) :
-    c'.diagnostics = c.diagnostics ∧ PInv cenv N rid ps ((v.name, v.typ) :: bv) gv outer env c' := by
+    c'.diagnostics = c.diagnostics ∧ PInv cenv N rid ps ((v.name, v.typ) :: bv) gv outer xt env c' := by
   obtain ⟨sc, hs, hk, hv, ho⟩ := h.top
   have hkd : Scopes.isDefsetKind sc.kind = false := by rw [hk]; rfl
   rw [scopesAddVariable_run_top v c sc outer hs hkd] at hrun
@@ -82,7 +82,8 @@ theorem PInv.addVar {cenv : CEnv} {N : Std.HashMap String Nat} {rid : Nat} {ps :
     rw [e5]
     exact getElem?_push_of_some _ _ _ _ hx
   refine ⟨rfl, ⟨h.k.sameTables e1 e2 e3 e4, ?_, by show _ = (c.symbolMap.addVariable v).2.recordList.size; rw [e1]; exact h.newest,
-    ?_, ?_, h.trace, by show (c.symbolMap.addVariable v).2.nameToClass = N; rw [e4]; exact h.ntc⟩⟩
+    ?_, ?_, h.trace, by show (c.symbolMap.addVariable v).2.nameToClass = N; rw [e4]; exact h.ntc,
+    h.x.mono (Nat.le_refl _) (fun _ _ _ => by show (c.symbolMap.addVariable v).2.nameToClass[_]? = _; rw [e4])⟩⟩
   · refine ⟨_, rfl, hk, ?_, ho.mono hkeep⟩
     intro name
     rw [Env.get_cons]
@@ -116,11 +117,11 @@ section core5
 variable (k : Nat)
 
 /-- the value of a `defvar`: a literal or an identifier in scope; its type is the one `coreValTy` computes -/
-theorem value5_run (cenv : CEnv) (N : Std.HashMap String Nat) (rid : Nat) (ps : Params) (bv gv : Env) (outer : List Scope)
-    (env : Env) (t : Ty) (v : PTree) (c : IndexCtx) (hinv : PInv cenv N rid ps bv gv outer env c)
+theorem value5_run (cenv : CEnv) (N : Std.HashMap String Nat) (rid : Nat) (ps : Params) (bv gv : Env) (outer : List Scope) (xt : XTab)
+    (env : Env) (t : Ty) (v : PTree) (c : IndexCtx) (hinv : PInv cenv N rid ps bv gv outer xt env c)
     (hty : coreValTy (bv ++ (env ++ (ps.env ++ gv))) v = some t) :
     isCoreTy t = true ∧ ∃ c1, ((mkRec (k + 1)).value v).run c = .ok (some t, c1) ∧ c1.diagnostics = c.diagnostics ∧
-      PInv cenv N rid ps bv gv outer env c1 := by
+      PInv cenv N rid ps bv gv outer xt env c1 := by
   obtain ⟨f, rest, hft⟩ : ∃ f rest, c.fileTrace = f :: rest := by
     cases hc : c.fileTrace with
     | nil => exact absurd hc hinv.trace
@@ -200,10 +201,10 @@ theorem value5_run (cenv : CEnv) (N : Std.HashMap String Nat) (rid : Nat) (ps : 
 
 /-- `defvar x = v;` in a record body -/
 theorem defvar5_step (cenv : CEnv) (N : Std.HashMap String Nat) (n : PTree) (rid : Nat) (ps : Params) (bv gv : Env)
-    (outer : List Scope) (env : Env) (name : String) (t : Ty) (c c' : IndexCtx) (hinv : PInv cenv N rid ps bv gv outer env c)
+    (outer : List Scope) (xt : XTab) (env : Env) (name : String) (t : Ty) (c c' : IndexCtx) (hinv : PInv cenv N rid ps bv gv outer xt env c)
     (hchk : coreDefvar5 (bv ++ (env ++ (ps.env ++ gv))) n = some (name, t))
     (hrun : (indexDefvar (mkRec (k + 1)) n).run c = .ok ((), c')) :
-    c'.diagnostics = c.diagnostics ∧ PInv cenv N rid ps ((name, t) :: bv) gv outer env c' := by
+    c'.diagnostics = c.diagnostics ∧ PInv cenv N rid ps ((name, t) :: bv) gv outer xt env c' := by
   obtain ⟨f, rest, hft⟩ : ∃ f rest, c.fileTrace = f :: rest := by
     cases hc : c.fileTrace with
     | nil => exact absurd hc hinv.trace
@@ -230,7 +231,7 @@ theorem defvar5_step (cenv : CEnv) (N : Std.HashMap String Nat) (n : PTree) (rid
   | some t0 =>
   rw [hty] at hchk
   cases hchk
-  obtain ⟨hpt, c1, hvr, hd1, hinv1⟩ := value5_run k cenv N rid ps bv gv outer env t v c hinv hty
+  obtain ⟨hpt, c1, hvr, hd1, hinv1⟩ := value5_run k cenv N rid ps bv gv outer xt env t v c hinv hty
   have hid := identOf_of f nameNode name se hiv hir
   unfold indexDefvar at hrun
   simp only [StateT.run_bind, hnn, utilsIdentifier_runOf nameNode c f rest hft, hid, Except.ok_bind, hvv, hvr,
@@ -240,28 +241,29 @@ theorem defvar5_step (cenv : CEnv) (N : Std.HashMap String Nat) (n : PTree) (rid
 
 /-- the items of a body of the fifth core: field definitions, field lets and `defvar`s; the variables and the fields
 in scope afterwards -/
-def coreItems5 (lists : Bool) (back : Env) : Env → Env → List PTree → Option (Env × Env)
+def coreItems5 (tyOf : PTree → Option Ty) (lists : Bool) (back : Env) : Env → Env → List PTree → Option (Env × Env)
   | bv, env, [] => some (bv, env)
   | bv, env, it :: rest =>
     if it.kind == .FieldDef then
-      match coreFieldDefG lists bv env back it with
-      | some env' => coreItems5 lists back bv env' rest
+      match coreFieldDefG tyOf lists bv env back it with
+      | some env' => coreItems5 tyOf lists back bv env' rest
       | none => none
     else if it.kind == .FieldLet then
-      if coreFieldLetG lists bv env back it then coreItems5 lists back bv env rest else none
+      if coreFieldLetG lists bv env back it then coreItems5 tyOf lists back bv env rest else none
     else if it.kind == .Defvar then
       match coreDefvar5 (bv ++ (env ++ back)) it with
-      | some p => coreItems5 lists back (p :: bv) env rest
+      | some p => coreItems5 tyOf lists back (p :: bv) env rest
       | none => none
     else none
 
-theorem items5_step (lists : Bool) (hk : lists = true → 0 < k) (cenv : CEnv) (N : Std.HashMap String Nat) (items : List PTree) (rid : Nat) (ps : Params) (gv : Env)
-    (outer : List Scope) (bv env bv' env' : Env) (c c' : IndexCtx) (u : PUnit)
-    (hinv : PInv cenv N rid ps bv gv outer env c) (hchk : coreItems5 lists (ps.env ++ gv) bv env items = some (bv', env'))
+theorem items5_step (tyOf : PTree → Option Ty) (lists : Bool) (hk : lists = true → 0 < k) (cenv : CEnv) (N : Std.HashMap String Nat) (items : List PTree) (rid : Nat) (ps : Params) (gv : Env)
+    (outer : List Scope) (xt : XTab) (bv env bv' env' : Env) (c c' : IndexCtx) (u : PUnit)
+    (htyO : TyOracle k tyOf cenv N rid ps gv outer xt)
+    (hinv : PInv cenv N rid ps bv gv outer xt env c) (hchk : coreItems5 tyOf lists (ps.env ++ gv) bv env items = some (bv', env'))
     (hrun : (forIn items PUnit.unit fun item _ => do
         indexBodyItem (mkRec (k + 1)) item
         pure (ForInStep.yield PUnit.unit)).run c = .ok (u, c')) :
-    c'.diagnostics = c.diagnostics ∧ PInv cenv N rid ps bv' gv outer env' c' := by
+    c'.diagnostics = c.diagnostics ∧ PInv cenv N rid ps bv' gv outer xt env' c' := by
   induction items generalizing bv env c with
   | nil =>
     simp only [List.forIn_nil, StateT.run_pure] at hrun
@@ -275,7 +277,7 @@ theorem items5_step (lists : Bool) (hk : lists = true → 0 < k) (cenv : CEnv) (
     cases j2
     by_cases hk1 : it.kind = .FieldDef
     · simp only [hk1, beq_self_eq_true, if_true] at hchk
-      cases hfd : coreFieldDefG lists bv env (ps.env ++ gv) it with
+      cases hfd : coreFieldDefG tyOf lists bv env (ps.env ++ gv) it with
       | none => rw [hfd] at hchk; cases hchk
       | some env1 =>
         rw [hfd] at hchk
@@ -283,7 +285,7 @@ theorem items5_step (lists : Bool) (hk : lists = true → 0 < k) (cenv : CEnv) (
           unfold indexBodyItem at j1
           simp only [hk1] at j1
           exact j1
-        obtain ⟨hd1, hinv1⟩ := fieldDefG_step k lists hk cenv N it rid ps bv gv outer env env1 c c1 hinv hfd j1'
+        obtain ⟨hd1, hinv1⟩ := fieldDefG_step k tyOf lists hk cenv N it rid ps bv gv outer xt env env1 c c1 hinv htyO hfd j1'
         obtain ⟨hd2, r⟩ := ih bv env1 c1 hinv1 hchk hrun
         exact ⟨hd2.trans hd1, r⟩
     · have hb1 : (it.kind == SyntaxKind.FieldDef) = false := by simpa using hk1
@@ -296,7 +298,7 @@ theorem items5_step (lists : Bool) (hk : lists = true → 0 < k) (cenv : CEnv) (
             unfold indexBodyItem at j1
             simp only [hk2] at j1
             exact j1
-          obtain ⟨hd1, hinv1⟩ := fieldLetG_step k lists hk cenv N it rid ps bv gv outer env c c1 hinv hl j1'
+          obtain ⟨hd1, hinv1⟩ := fieldLetG_step k lists hk cenv N it rid ps bv gv outer xt env c c1 hinv hl j1'
           obtain ⟨hd2, r⟩ := ih bv env c1 hinv1 hchk hrun
           exact ⟨hd2.trans hd1, r⟩
         · simp only [hl, Bool.false_eq_true, if_false] at hchk
@@ -314,7 +316,7 @@ theorem items5_step (lists : Bool) (hk : lists = true → 0 < k) (cenv : CEnv) (
               unfold indexBodyItem at j1
               simp only [hk3] at j1
               exact j1
-            obtain ⟨hd1, hinv1⟩ := defvar5_step k cenv N it rid ps bv gv outer env name t c c1 hinv hdv j1'
+            obtain ⟨hd1, hinv1⟩ := defvar5_step k cenv N it rid ps bv gv outer xt env name t c c1 hinv hdv j1'
             obtain ⟨hd2, r⟩ := ih ((name, t) :: bv) env c1 hinv1 hchk hrun
             exact ⟨hd2.trans hd1, r⟩
         · have hb3 : (it.kind == SyntaxKind.Defvar) = false := by simpa using hk3
@@ -322,7 +324,7 @@ theorem items5_step (lists : Bool) (hk : lists = true → 0 < k) (cenv : CEnv) (
           cases hchk
 
 /-- a record body of the fifth core -/
-def coreRecordBody5 (lists : Bool) (cenv : CEnv) (back : Env) (rb : PTree) : Option Env :=
+def coreRecordBody5 (tyOf : PTree → Option Ty) (lists : Bool) (cenv : CEnv) (back : Env) (rb : PTree) : Option Env :=
   match Ast.recordBodyParentClassList rb with
   | none => some []
   | some pcl =>
@@ -330,14 +332,15 @@ def coreRecordBody5 (lists : Bool) (cenv : CEnv) (back : Env) (rb : PTree) : Opt
     | some env =>
       match Ast.recordBodyBody rb with
       | none => some env
-      | some b => (coreItems5 lists back [] env (Ast.bodyItems b)).map (·.2)
+      | some b => (coreItems5 tyOf lists back [] env (Ast.bodyItems b)).map (·.2)
     | none => none
 
-theorem recordBody5_step (lists : Bool) (hk : lists = true → 0 < k) (cenv : CEnv) (N : Std.HashMap String Nat) (rb : PTree) (rid : Nat) (ps : Params) (gv : Env)
-    (outer : List Scope) (env' : Env) (c c' : IndexCtx) (hinv : PInv cenv N rid ps [] gv outer [] c)
-    (hchk : coreRecordBody5 lists cenv (ps.env ++ gv) rb = some env')
+theorem recordBody5_step (tyOf : PTree → Option Ty) (lists : Bool) (hk : lists = true → 0 < k) (cenv : CEnv) (N : Std.HashMap String Nat) (rb : PTree) (rid : Nat) (ps : Params) (gv : Env)
+    (outer : List Scope) (xt : XTab) (env' : Env) (c c' : IndexCtx) (htyO : TyOracle k tyOf cenv N rid ps gv outer xt)
+    (hinv : PInv cenv N rid ps [] gv outer xt [] c)
+    (hchk : coreRecordBody5 tyOf lists cenv (ps.env ++ gv) rb = some env')
     (hrun : (indexRecordBody (mkRec (k + 1)) rb).run c = .ok ((), c')) :
-    c'.diagnostics = c.diagnostics ∧ ∃ bv, PInv cenv N rid ps bv gv outer env' c' := by
+    c'.diagnostics = c.diagnostics ∧ ∃ bv, PInv cenv N rid ps bv gv outer xt env' c' := by
   unfold coreRecordBody5 at hchk
   unfold indexRecordBody at hrun
   cases hp : Ast.recordBodyParentClassList rb with
@@ -351,13 +354,13 @@ theorem recordBody5_step (lists : Bool) (hk : lists = true → 0 < k) (cenv : CE
       rw [hps] at hchk
       simp only at hchk
       obtain ⟨_, c1, h1, hrun⟩ := IxM.run_bind_ok hrun
-      obtain ⟨hd1, hinv1⟩ := parents4_step k cenv N pcl rid ps gv outer [] env c c1 hinv hps h1
+      obtain ⟨hd1, hinv1⟩ := parents4_step k cenv N pcl rid ps gv outer xt [] env c c1 hinv hps h1
       cases hb : Ast.recordBodyBody rb with
       | none => rw [hb] at hrun hchk; cases hrun; cases hchk; exact ⟨hd1, [], hinv1⟩
       | some b =>
         rw [hb] at hrun hchk
         simp only at hrun hchk
-        cases hit : coreItems5 lists (ps.env ++ gv) [] env (Ast.bodyItems b) with
+        cases hit : coreItems5 tyOf lists (ps.env ++ gv) [] env (Ast.bodyItems b) with
         | none => rw [hit] at hchk; cases hchk
         | some p =>
           obtain ⟨bv', env2⟩ := p
@@ -367,7 +370,7 @@ theorem recordBody5_step (lists : Bool) (hk : lists = true → 0 < k) (cenv : CE
           obtain ⟨u, c2, h2, h3⟩ := IxM.run_bind_ok hrun
           simp only [StateT.run_pure] at h3
           cases h3
-          obtain ⟨hd2, hinv2⟩ := items5_step k lists hk cenv N _ rid ps gv outer [] env bv' env2 c1 c' u hinv1 hit h2
+          obtain ⟨hd2, hinv2⟩ := items5_step k tyOf lists hk cenv N _ rid ps gv outer xt [] env bv' env2 c1 c' u htyO hinv1 hit h2
           exact ⟨hd2.trans hd1, bv', hinv2⟩
 
 
@@ -407,7 +410,8 @@ theorem TabInv5.after {cenv cenv' : CEnv} {gv : Env} {c c' : IndexCtx} (h : TabI
 theorem coreValTy_top_run (cenv : CEnv) (gv : Env) (t : Ty) (v : PTree) (c : IndexCtx) (h : TabInv5 cenv gv c)
     (hty : coreValTy gv v = some t) :
     isCoreTy t = true ∧ ∃ c1, ((mkRec (k + 1)).value v).run c = .ok (some t, c1) ∧ c1.diagnostics = c.diagnostics ∧
-      TabInv5 cenv gv c1 := by
+      TabInv5 cenv gv c1 ∧ c1.symbolMap.nameToClass = c.symbolMap.nameToClass ∧
+      c1.symbolMap.recordList = c.symbolMap.recordList := by
   obtain ⟨f, rest, hft⟩ : ∃ f rest, c.fileTrace = f :: rest := by
     cases hc : c.fileTrace with
     | nil => exact absurd hc h.tab.trace
@@ -417,7 +421,7 @@ theorem coreValTy_top_run (cenv : CEnv) (gv : Env) (t : Ty) (v : PTree) (c : Ind
   | some lt =>
     rw [hlt] at hty
     cases hty
-    exact ⟨isCoreTy_of_prim (lit_isPrim v t hlt), c, indexValue_lit _ v t hlt _, rfl, h⟩
+    exact ⟨isCoreTy_of_prim (lit_isPrim v t hlt), c, indexValue_lit _ v t hlt _, rfl, h, rfl, rfl⟩
   | none =>
     rw [hlt] at hty
     simp only at hty
@@ -441,14 +445,15 @@ theorem coreValTy_top_run (cenv : CEnv) (gv : Env) (t : Ty) (v : PTree) (c : Ind
         (indexValue_ident (mkRec k) v id hidv _).trans
           (indexIdentifierValue_var id _ f rest hft vname ⟨f, vse.1, vse.2⟩ (identOf_of f id vname vse hv1 hv2) vid hfl)
       rw [var_typ_of_getElem? _ _ _ h2, h3] at hvrun
-      refine ⟨hpt, _, hvrun, rfl, ?_⟩
+      refine ⟨hpt, _, hvrun, rfl, ?_, rfl, rfl⟩
       exact h.after (h.tab.same ⟨rfl, rfl, rfl, rfl, rfl, rfl, rfl, rfl⟩) rfl (ArenaKeep.of_eq rfl rfl rfl)
 
 /-- `defvar x = v;` at top level -/
 theorem defvarTop5_step (cenv : CEnv) (gv : Env) (n : PTree) (name : String) (t : Ty) (c c' : IndexCtx)
     (h : TabInv5 cenv gv c) (hchk : coreDefvar5 gv n = some (name, t))
     (hrun : (indexDefvar (mkRec (k + 1)) n).run c = .ok ((), c')) :
-    c'.diagnostics = c.diagnostics ∧ TabInv5 cenv ((name, t) :: gv) c' := by
+    c'.diagnostics = c.diagnostics ∧ TabInv5 cenv ((name, t) :: gv) c' ∧
+      c'.symbolMap.nameToClass = c.symbolMap.nameToClass ∧ c'.symbolMap.recordList = c.symbolMap.recordList := by
   obtain ⟨f, rest, hft⟩ : ∃ f rest, c.fileTrace = f :: rest := by
     cases hc : c.fileTrace with
     | nil => exact absurd hc h.tab.trace
@@ -475,7 +480,7 @@ theorem defvarTop5_step (cenv : CEnv) (gv : Env) (n : PTree) (name : String) (t 
   | some t0 =>
   rw [hty] at hchk
   cases hchk
-  obtain ⟨hpt, c1, hvr, hd1, h1⟩ := coreValTy_top_run k cenv gv t v c h hty
+  obtain ⟨hpt, c1, hvr, hd1, h1, hn1, hr1⟩ := coreValTy_top_run k cenv gv t v c h hty
   have hft1 : c1.fileTrace = f :: rest := by
     have := ((mkRec_attr (k + 1)).1 v).run _ _ _ hvr
     rw [this.trace]; exact hft
@@ -494,7 +499,7 @@ theorem defvarTop5_step (cenv : CEnv) (gv : Env) (n : PTree) (name : String) (t 
     intro i x hx
     rw [e5]
     exact getElem?_push_of_some _ _ _ _ hx
-  refine ⟨hd1, ⟨⟨?_, h1.tab.trace⟩, _, rfl, hk, ?_⟩⟩
+  refine ⟨hd1, ⟨⟨?_, h1.tab.trace⟩, _, rfl, hk, ?_⟩, e4.trans hn1, e1.trans hr1⟩
   · show KInv cenv (c1.symbolMap.addVariable _).2.recordList.size (c1.symbolMap.addVariable _).2
     rw [e1]
     exact h1.tab.k.sameTables e1 e2 e3 e4
@@ -524,14 +529,14 @@ theorem defvarTop5_step (cenv : CEnv) (gv : Env) (n : PTree) (name : String) (t 
 
 /-- `class C …` of the fifth core -/
 def coreClass5 (lists : Bool) (cenv : CEnv) (gv : Env) (n : PTree) : Option CEnv :=
-  coreClassG (fun ce ps rb => coreRecordBody5 lists ce (ps.env ++ gv) rb) cenv n
+  coreClassG (fun ce _ ps rb => coreRecordBody5 (coreTypeOf lists) lists ce (ps.env ++ gv) rb) cenv [] n
 
 /-- `def d … { … }` of the fifth core: the record body must be there (a `def` node without one would leave its
 scope on the stack) -/
 def coreDef5 (lists : Bool) (cenv : CEnv) (gv : Env) (n : PTree) : Bool :=
   match Ast.defRecordBody n with
   | none => false
-  | some rb => (coreRecordBody5 lists cenv gv rb).isSome
+  | some rb => (coreRecordBody5 (coreTypeOf lists) lists cenv gv rb).isSome
 
 /-- one statement of the fifth core; the class table and the top-level variables afterwards -/
 def coreStatement5 (lists : Bool) (cenv : CEnv) (gv : Env) (s : PTree) : Option (CEnv × Env) :=
@@ -570,9 +575,11 @@ theorem indexStatement5_step (lists : Bool) (hk : lists = true → 0 < k) (cenv 
     | some ce =>
       rw [hc] at hchk
       cases hchk
-      obtain ⟨q, ht, hs⟩ := indexClassG_step k _ gv
-        (fun cenv1 ps rb env N rid outer c6 c7 hinv hrb h7 => recordBody5_step k lists hk cenv1 N rb rid ps gv outer env c6 c7 hinv hrb h7)
-        cenv _ s c c' h.tab h.outer hc hrun
+      obtain ⟨q, ht, hs, _⟩ := indexClassG_step k _ gv
+        (fun cenv1 xt' ps rb env N rid outer c6 c7 hinv hrb h7 =>
+          recordBody5_step k (coreTypeOf lists) lists hk cenv1 N rb rid ps gv outer xt' env c6 c7
+            (coreTypeOf_oracle k lists hk cenv1 N rid ps gv outer xt') hinv hrb h7)
+        cenv _ [] s c c' h.tab h.outer (XInv.nil _ _) hc hrun
       exact ⟨q, h.after ht hs hkeep⟩
   · have hb1 : (s.kind == SyntaxKind.Class) = false := by simpa using hk1
     simp only [hb1, Bool.false_eq_true, if_false] at hchk
@@ -586,9 +593,11 @@ theorem indexStatement5_step (lists : Bool) (hk : lists = true → 0 < k) (cenv 
         cases hb : Ast.defRecordBody s with
         | none => rw [hb] at hd; cases hd
         | some rb0 =>
-          obtain ⟨q, ht, hs⟩ := indexDefG_step k cenv (coreRecordBody5 lists cenv gv) gv
-            (fun rb env N rid outer c6 c7 hinv hrb h7 => recordBody5_step k lists hk cenv N rb rid [] gv outer env c6 c7 hinv hrb h7)
-            s c c' h.tab h.outer (fun rb hrb => by rw [hb] at hd hrb; cases hrb; exact hd) hrun
+          obtain ⟨q, ht, hs, _⟩ := indexDefG_step k cenv (coreRecordBody5 (coreTypeOf lists) lists cenv gv) gv []
+            (fun rb env N rid outer c6 c7 hinv hrb h7 =>
+              recordBody5_step k (coreTypeOf lists) lists hk cenv N rb rid [] gv outer [] env c6 c7
+                (coreTypeOf_oracle k lists hk cenv N rid [] gv outer []) hinv hrb h7)
+            s c c' h.tab h.outer (XInv.nil _ _) (fun rb hrb => by rw [hb] at hd hrb; cases hrb; exact hd) hrun
           exact ⟨q, h.after ht (hs (by rw [hb]; rfl)) hkeep⟩
       · simp only [hd, Bool.false_eq_true, if_false] at hchk
         cases hchk
@@ -603,7 +612,7 @@ theorem indexStatement5_step (lists : Bool) (hk : lists = true → 0 < k) (cenv 
           obtain ⟨name, t⟩ := p
           rw [hdv] at hchk
           cases hchk
-          exact defvarTop5_step k cenv gv s name t c c' h hdv hrun
+          exact ⟨(defvarTop5_step k cenv gv s name t c c' h hdv hrun).1, (defvarTop5_step k cenv gv s name t c c' h hdv hrun).2.1⟩
       · have hb3 : (s.kind == SyntaxKind.Defvar) = false := by simpa using hk3
         simp only [hb3, Bool.false_eq_true, if_false] at hchk
         cases hchk
